@@ -1205,7 +1205,7 @@ def check_euclid(run):
             run.nontrivial("euclid %d %d" % (k, n))
             terms.append("zl_eqb (euclid %d%%nat %d%%nat) %s" % (n, k, zlist(r["direct"])))
             idx.append((k, n))
-    run.cov["exhaustive"] = "PEuclidean: all 0 <= k <= n, 1 <= n <= 64 (%d pairs); PArpeggiator: 10 deterministic orders x chord sizes 1..8" % len(res)
+    run.cov["exhaustive_domains"] = "PEuclidean: all 0 <= k <= n, 1 <= n <= 64 (%d pairs); PArpeggiator: 9 deterministic orders x chord sizes 1..8" % len(res)
     if os.path.exists(os.path.join(COQDIR, "Pat", "Ref.v")):
         bad = run.coq_failing(EUCLID_HEADER, terms)
         run.cov["traces_validated_against_impl"] += len(terms) - len(bad)
